@@ -109,20 +109,8 @@ def _conc_run(scn, level, rec):
 
 
 def _raised_by_library(e):
-    """True if the exception left the scenario code, entered the repository's code and was raised there (or below)"""
-    from . import install
-    root = os.path.realpath(install.REPO) + os.sep
-    props = os.path.join(VERIF, 'props') + os.sep
-    last = None
-    tb = e.__traceback__
-    while tb is not None:
-        fn = os.path.realpath(tb.tb_frame.f_code.co_filename)
-        if fn.startswith(root):
-            last = 'repo'
-        elif fn.startswith(props):
-            last = 'props'
-        tb = tb.tb_next
-    return last == 'repo'
+    from .env import raised_by_library
+    return raised_by_library(e)
 
 
 def _jsonable(x):
